@@ -952,6 +952,35 @@ static int write_table(void *context, cif_value_tp *table_value) {
     FAILURE_TERMINUS;
 }
 
+/*
+ * Determines whether the given string consists solely of characters that may appear in a CIF 2.0 document: HT, LF, CR,
+ * U+0020 - U+007E, and the code points from U+00A0 up, less surrogates (which must come in well-formed pairs), the
+ * byte-order mark U+FEFF, and the Unicode noncharacters.  Returns CIF_OK if so, or CIF_DISALLOWED_CHAR otherwise.
+ */
+static int validate_cif2_characters(const UChar *s) {
+    for (; *s; s += 1) {
+        UChar c = *s;
+
+        if (c < 0x20) {
+            if ((c != UCHAR_TAB) && (c != UCHAR_NL) && (c != UCHAR_CR)) {
+                return CIF_DISALLOWED_CHAR;
+            }
+        } else if ((c >= 0x7f) && (c < 0xa0)) {
+            return CIF_DISALLOWED_CHAR;
+        } else if ((c & 0xfc00) == 0xd800) {
+            /* a lead surrogate must be followed by a trail surrogate, and the pair must not encode a noncharacter */
+            if (((s[1] & 0xfc00) != 0xdc00) || (((c & 0x3f) == 0x3f) && ((s[1] & 0x3fe) == 0x3fe))) {
+                return CIF_DISALLOWED_CHAR;
+            }
+            s += 1;
+        } else if (((c & 0xfc00) == 0xdc00) || ((c >= 0xfdd0) && (c <= 0xfdef)) || (c == 0xfeff) || (c >= 0xfffe)) {
+            return CIF_DISALLOWED_CHAR;
+        }
+    }
+
+    return CIF_OK;
+}
+
 static int write_char(void *context, cif_value_tp *char_value, int allow_text) {
     int result;
     UChar *text;
@@ -961,7 +990,8 @@ static int write_char(void *context, cif_value_tp *char_value, int allow_text) {
         /* extra_space accounts for space consumed by preceding output that must not be separated from the current */
         /* int32_t extra_space = (IS_SEPARATE_VALUES(context) ? 0 : LAST_COLUMN(context)); */
 
-        if ((!IS_CIF1(context) || ((result = cif_validate_cif11_characters(text, NULL)) == CIF_OK))
+        if (((result = (IS_CIF1(context) ? cif_validate_cif11_characters(text, NULL) : validate_cif2_characters(text)))
+                        == CIF_OK)
                 && ((result = cif_analyze_string(text, !cif_value_is_quoted(char_value), !IS_CIF1(context),
                         LINE_LENGTH(context), &analysis)) == CIF_OK)
                 ) {
